@@ -2,14 +2,133 @@
 
 _FLAGS = ["-O0", "-g1"]   # 9 allocator configurations per wrapper: keep the ASan compile inside the quick budget
 
+
+THEOREMS = [
+    "Momo.Val.C14_copy_ctor",
+    "Momo.Val.C14_copy_ctor_with_manager",
+    "Momo.Val.C14_independent",
+    "Momo.Val.C14_copy_independent",
+    "Momo.Val.C14_copy_destroy_either",
+    "Momo.Val.C14_copy_assign",
+    "Momo.Val.C14_move_ctor_exact",
+    "Momo.Val.C14_move_assign_exact",
+    "Momo.Val.C14_null_destroy",
+    "Momo.Val.C14_null_clear",
+    "Momo.Val.C14_swap_exact",
+    "Momo.Val.C14_null_copy_assign",
+    "Momo.Val.C14_null_move_assign",
+    "Momo.Val.C14_null_reusable_arraylike",
+    "Momo.Val.C14_self_assign_id",
+    "Momo.Val.C14_propagation_table",
+    "Momo.Val.C14_manager_assign_table",
+    "Momo.Val.C14_wrapper_copy_assign",
+    "Momo.Val.C14_wrapper_copy_assign_to_moved_from",
+    "Momo.Val.C14_wrapper_move_ctor_equal_steals",
+    "Momo.Val.C14_unequal_move_elementwise_partial",
+    "Momo.Val.C14_wrapper_move_assign_partial",
+    "Momo.Val.C14_destroy_frees_through_allocator",
+    "Momo.Val.C14_F15_wrapper_assign_undefined",
+    "Momo.Val.C14_history",
+    "Momo.Val.C14_history_ownership",
+    "Momo.Val.C14_history_ledger",
+    "Momo.Val.C14_history_no_leak",
+    "Momo.Val.C14_rebuild_layouts",
+]
+
+LEVEL_TEXT = (
+    "Kernel-checked theorems over an executable ownership model (a heap of blocks that remember the allocating manager; container "
+    "objects = manager or null crew pointer + block handles + internal-buffer items; the special member functions of the native containers "
+    "and of the stdish wrappers as sequences of the primitive steps new / copy / move / swap / destroy / clear / set-layout, transcribed from "
+    "the source incl. the temporaries of `C(x).Swap(*this)`), universally quantified over the configuration (internal capacity, crew "
+    "pointer or inline manager, constructor blocks, trivially-relocatable / movable / copy-only elements, Array-style or swap-style "
+    "assignment, the manager's copy constructor, POCCA/POCMA/POCS/is_empty), over all worlds satisfying the ownership invariant WF and all "
+    "slots. Proved: a copy (both constructors, native and wrapper copy assignment) has equal contents, a manager chosen as the source "
+    "dictates, is usable, shares no block with any live object, and leaves the source unchanged; any history of operations that does not "
+    "name an object leaves its handles and contents unchanged (frame), in particular after a copy either side may be mutated or destroyed; "
+    "move construction / assignment hand over exactly the former object (same blocks, heap untouched), emit no copy event for movable "
+    "elements, no allocation, release only the target's former blocks through the target's former manager, and leave the source in the "
+    "null state; on the null state destroy, Clear, Swap (either side), copy- and move-assignment are defined and the object is usable "
+    "after assignment (array-like kinds: immediately); self copy/move assignment (native and wrapper) and self swap return the identical "
+    "world; swap exchanges the two objects exactly with no allocation/free/copy; the wrappers' allocator choice equals the standard's "
+    "table for all trait combinations and identities, MemManagerStd's operator= overload selection uses only non-throwing allocator "
+    "operations for all 16 combinations; wrapper copy assignment ends with the tabled manager and all blocks allocated by it; wrapper move "
+    "construction with an unequal allocator and wrapper move assignment in the table's element-wise rows perform exactly one element "
+    "construction per source element in iteration order (moves if movable), every target block is new and from the tabled allocator, every "
+    "freed block is freed through the allocator of the object that owned it (no block changes owner), the source stays a non-null empty "
+    "object with its own allocator; in the steal rows the target becomes exactly the former source; a destructor frees every owned block "
+    "once through its allocating manager; history theorems: every finite operation list defined from the initial world ends in a WF world "
+    "(no dangling handle, no manager mismatch, no shared block, no block held twice), its complete manager-event trace passes the ledger "
+    "check (a block is handed out only while not live and given back only while live and to the manager identity that allocated it) ending "
+    "in the final heap's owner map, every live block is owned by a live object, and after all objects died no block is live. The "
+    "correspondence harness drives the real containers and the model through the same random histories and "
+    "compares after every operation, for every live object, the manager identity (or null crew), capacity, internal items and the items of "
+    "every owned heap block, plus per operation the element copy/move counts, the sets of manager identities that allocated / freed, the "
+    "identities still owning blocks and whether the target took over the source's first block.")
+
+LEVEL_NOTE = (
+    "Label partial. Two theorems are partial by name (C14_unequal_move_elementwise_partial, C14_wrapper_move_assign_partial): the block "
+    "layout produced by an element-wise insertion (and by every mutation) is a parameter reported by the harness, so 'the target holds "
+    "exactly the source's elements' after an unequal-allocator move is checked by the harness's reference-contents oracle, not proved; the "
+    "full statements are the defs C14_unequal_move_elementwise and C14_wrapper_move_assign_elementwise. Wrapper move assignment onto a "
+    "moved-from (null-crew) target with a propagating allocator is modelled and compared but covered only by the frame/history theorems. "
+    "Temporaries of `C(x).Swap(*this)` live in two reserved slots (Cfg.t1, t2): the frame theorem excludes them from the untouched objects. "
+    "Modelled, not verified: ownership is a relation between handles and a block "
+    "map - that the real pointers of a copy do not alias the original's memory is runtime evidence (ASan + the harness mutating / destroying "
+    "either side); the correspondence compares block *contents and owners*, never addresses (st= flag: first block identical or not). "
+    "Definedness (`step = some`) is proved for the null-state operations; elsewhere it is a hypothesis discharged by the run-time comparison "
+    "(the model answers `crash` where the library would). Open known finding F15 (mirrored by C14_F15_wrapper_assign_undefined): operator= / "
+    "swap of a moved-from stdish set/map/unordered_* whose allocator does not propagate reads the stolen crew - the harness probes it in a "
+    "forked child and reports KNOWN-FINDING; 'assignable' is therefore proved for native containers unconditionally and is false for such "
+    "wrappers. Driven by the harness: Array (internal capacity 0/2/3/4), SegmentedArray (cnst, sqrt), HashSet (Default, LimP4, Open8, "
+    "Open2N2 buckets, inline and pointer crew), HashMap, HashMultiMap, TreeSet/TreeMap (node capacities 2, 4, default), DataTable, and "
+    "stdish vector, set, multiset, map, unordered_set, unordered_map, unordered_multimap each with 8 POCCA/POCMA/POCS combinations of a "
+    "stateful allocator + a stateless one; MemPool and MemManagerStd's 16 assign paths at function level. Trusted: Lean kernel + the three "
+    "standard axioms, the harness and its identity-recording managers (g++, -fno-access-control, ASan/UBSan), the transcription of the "
+    "member functions into step lists.")
+
+RULE = (
+    "Per container type (one suite each, 6 executables): `runs` random histories (quick 8, wrappers 3; thorough 40 / 16) over 5 named slots. "
+    "A history starts with 2-3 objects with fresh manager identities put into a chosen state (empty; 1-3 elements = inside an internal "
+    "capacity; 8-47 elements = grown several times; filled then `special`: reserve far above count / shrink / remove-back for arrays, "
+    "piled-up hash-table generations through injected copy faults for copy-only elements, thinned-out deep tree, value-less multimap keys; "
+    "20-79 insertions then up to 14 removals), followed by 40 (thorough 60) weighted random operations: copy construction (12%), copy "
+    "construction with a fresh manager (4%), wrapper move construction with an equal or a fresh allocator (6%), move construction (6%), "
+    "swap (12%, wrappers only when POCS or equal allocators), copy assignment (14%), move assignment (14%), self copy/move assignment (3% "
+    "each), destroy (6%), Clear in every variant (5%), new (3%), insert 1-40 / remove / special on usable objects (12%); operands are drawn "
+    "from all live objects incl. moved-from ones; at the end every object is destroyed and ledger and element counter must be empty. "
+    "After every operation the independent oracle compares every live object with reference contents and reference manager identity, and the "
+    "ledger checks every deallocation against the allocating identity and size. Function level: all 16 MemManagerStd assign-path trait "
+    "combinations, 40 MemPool move / move-assign / swap rounds for two manager types, the F26 regression probes in child processes. "
+    "evaluations = operations executed; distinct_nontrivial = distinct (suite, history index): every history contains at least two live "
+    "objects and 40 value operations; counters op.* / null.* / f15.* give the per-kind totals (e.g. op.move_assign_unequal_elementwise, "
+    "null.copy_assign_target, null.reused_at_once).")
+
+RUNTIME_ONLY = [
+    "aliasing-freedom of the real heap: ASan/UBSan on every history (use-after-free / double free after destroying or mutating one side of a copy, move or swap)",
+    "ledger: every block deallocated through a manager with the identity (and size) that allocated it; nothing outstanding and no element object alive after all objects died",
+    "reference contents and reference manager identity of every live object after every operation (also decides the unproved conjunct of the element-wise move)",
+    "no copy construction of movable elements during move construction / move assignment / swap (element counters)",
+    "MemPool move / move-assign / swap between equal and unequal managers (property-level checks only, no model)",
+    "regression of repaired findings: F26 (DataTable swap / assignment with stateful managers) probed in child processes; F12 (Clear on a moved-from tree) exercised inside the histories (counter null.clear)",
+]
+
+NOT_MODELLED = [
+    "block layout produced by insertions / removals / Reserve / Shrink and by element-wise transfer (reported by the harness, adopted by the model: growth and node splitting belong to C01/C02/C05/C16)",
+    "pool-internal blocks: frees of Clear(false) on hash tables / DataTable and of SegmentedArray's copy constructor are not predicted (F= printed as *)",
+    "element moves inside hash / tree nodes during mutations (m= compared only for the sequence containers)",
+    "exceptions thrown during copy construction / assignment (strong guarantee is C03/C04)",
+    "iterator / reference validity across moves and swaps (C06, C15)",
+    "the wrappers' swap with unequal non-propagating allocators (undefined behaviour by the standard; never generated)",
+]
+
 PROP = {
     "id": "C14",
     "level": "proof",
     "technique": "Lean 4 proof (ownership invariant over a heap of blocks, frame lemma, decision tables) + state-machine correspondence on manager identity, block layout and element events",
-    "level_text": "",
-    "level_note": "",
+    "level_text": LEVEL_TEXT,
+    "level_note": LEVEL_NOTE,
     "modules": ["Momo.Props.C14"],
-    "theorems": [],
+    "theorems": THEOREMS,
     "harnesses": [
         {"name": "c14_seq", "src": "c14_value.cpp", "sanitize": "asan", "flags": ["-DVF_PART=0"] + _FLAGS},
         {"name": "c14_hash", "src": "c14_value.cpp", "sanitize": "asan", "flags": ["-DVF_PART=1"] + _FLAGS},
@@ -18,7 +137,7 @@ PROP = {
         {"name": "c14_wmap_uset", "src": "c14_value.cpp", "sanitize": "asan", "flags": ["-DVF_PART=4"] + _FLAGS},
         {"name": "c14_wumap", "src": "c14_value.cpp", "sanitize": "asan", "flags": ["-DVF_PART=5"] + _FLAGS},
     ],
-    "rule": "",
-    "runtime_only": [],
-    "not_modelled": [],
+    "rule": RULE,
+    "runtime_only": RUNTIME_ONLY,
+    "not_modelled": NOT_MODELLED,
 }
